@@ -92,7 +92,7 @@ SPECS = [
     (
         "tensorly.decomposition._tucker.partial_tucker",
         {"tensor": X_, "mask": Other(None, True)},
-        {"initialize_tucker": ("tuple", [Deg({"G": ONE}), FL()])},
+        {"initialize_tucker": ("tuple", [Deg({"G": ONE}), ListV(N, {}, {})])},  # HOSVD start by specification: orthonormal factors, degree 0 (as in C09) -- the core may then be completed from the last partial projection
         None,
         {"factors": {}},
         {"core": {"X": ONE}},
@@ -123,6 +123,26 @@ def run(ctx: Ctx):
     ctx.guarded(accept_evaluated, ctx)
     res.rule("DERIVED-FRESH", "in every iterative driver, a local table derived element by element from the model (G = [f(x) for x in factors], G[i] = f(factors[i]): cached Gram matrices, norms) is rebuilt as a whole (a comprehension or a loop over every position of the model list) after the model list is re-bound as a whole (factors = ..., weights, factors = cp_normalize(...)) and before it is read again: a refresh over the swept modes only leaves the entries of the other (fixed) modes describing the old factors, and the block update built from them is not the minimiser of its block problem", floor=1)
     ctx.guarded(derived_fresh, ctx)
+    res.rule("EXACT-SWEEP-SVD", "HOOI (partial_tucker): the SVD that updates a factor inside the sweep loop does not take its method from a caller option -- it is the interface's exact default. A caller-selectable method includes the randomised SVD (an approximate block update: the objective can rise between sweeps) and the Gram-matrix method (factors lose orthonormality below sqrt(eps)); the option may choose the initialisation only", floor=1)
+    ctx.guarded(exact_sweep_svd, ctx, "EXACT-SWEEP-SVD")
+
+
+def exact_sweep_svd(ctx: Ctx, rule: str):
+    from ..inline import with_inlined
+
+    f = with_inlined(ctx.repo, ctx.repo.func("tensorly.decomposition._tucker.partial_tucker"))
+    loops = [n for n in f.node.body if isinstance(n, ast.For)]
+    calls = [c for lp in loops for c in ast.walk(lp) if isinstance(c, ast.Call) and call_name(c) == "svd_interface"]
+    if not calls:
+        raise AnalysisError(f"{rule}: no svd_interface call inside partial_tucker's sweep loop any more; cannot decide")
+    params = set(f.all_params)
+    for c in calls:
+        kw = next((k for k in c.keywords if k.arg == "method"), None)
+        val = kw.value if kw is not None else (c.args[2] if len(c.args) > 2 else None)
+        from_option = val is not None and not isinstance(val, ast.Constant)
+        ctx.res.instance(rule, f"{f.qname}: {src(c)[:60]}", sample={"method": src(val) if val is not None else "(default)", "ok": not from_option})
+        if from_option:
+            ctx.finding(rule, f, c, f"partial_tucker: the factor update inside the HOOI sweep calls svd_interface with method=`{src(val)[:30]}`, a value the caller chooses: with 'randomized_svd' the block update is only approximate and the reconstruction error can rise from one sweep to the next; with 'symeig_svd' the factors lose orthonormality for singular values below sqrt(eps) and the core is no longer the projection of the data. The sweep must use the exact default", construct="partial_tucker: caller-selected SVD method inside the sweep")
 
 
 _SNAPSHOTS = {"copy", "deepcopy", "clone"}  # a copy of the iterate is a snapshot (meant to stay behind), not a derived quantity
